@@ -192,8 +192,8 @@ fn big_count(tier: Tier) -> u64 {
     }
 }
 
-const RETRY_QUICK: u64 = 8;
-const RETRY_THOROUGH: u64 = 32;
+const RETRY_QUICK: u64 = 16;
+const RETRY_THOROUGH: u64 = 64;
 
 /// More than 4 GiB of payload, a sink outage inside write_end (k-th stream call of that call: the
 /// flushes of the pending chunks, then the 64-bit size patch), and the caller's second write_end.
@@ -201,9 +201,16 @@ fn gen_payload_retry(r: &mut Rng, k: u64) -> BigCase {
     let kind = *r.pick(&Kind::ALL);
     let mut c = gen_payload(r, kind, k % 2 == 1, 1);
     let end_api = c.sc.ops.len() as u32;
-    c.sc.fault = Some((0, crate::simdisk::Fault::Err(crate::simdisk::ErrK::Other)));
+    // an error, a zero-length write (must surface as an error) or a short transfer (must be
+    // transparent) - the 64-bit size patch consists of very small writes
+    let f = match k % 4 {
+        0 | 1 => crate::simdisk::Fault::Err(crate::simdisk::ErrK::Other),
+        2 => crate::simdisk::Fault::Zero,
+        _ => crate::simdisk::Fault::Short(1 + k % 3),
+    };
+    c.sc.fault = Some((0, f));
     c.sc.fault_len = if k % 5 == 4 { 2 } else { 1 };
-    c.sc.fault_api = Some((end_api, k / 2 % 12));
+    c.sc.fault_api = Some((end_api, k / 4 % 12 + (k % 2) * 2));
     if r.chance(1, 3) {
         c.sc.ops.push(Op::Write { track_id: 1, s: SampleW { payload: Payload::Stamp { len: 11, tag: 4242 }, duration: 1000, offset: 0, sync: true, start_time: 0 } });
     }
